@@ -27,7 +27,7 @@ class C08(Spec):
             "a 16 MB file served with Http::serveFile and abandoned after 17 bytes, the same file downloaded completely, an answer sent after ResponseWriter::timeoutAfter(300 ms) was armed, an answer sent by a thread of the handler's own 150 ms after the client has closed (L), "
             "silence until the idle scan closes, partial head then silence, answered request then silence, a 24 MB answer never read (write blocked over several idle scans, 408 queued behind it) then RST. Per peer id the "
             "callback log (C connection, I input/request, D disconnection), callbacks after D, /proc/self/fd against the "
-            "idle baseline, and - after every round - as many fresh connections as the round had, which must each receive exactly "
+            "idle baseline, the number of entries in the workers' tables (Transport::peers, toWrite, timers - read through '#define private public' after every round, when all its clients are gone), and - after every round - as many fresh connections as the round had, which must each receive exactly "
             "the answer to their own request (nothing an earlier connection on the same descriptor number left unsent), are compared with the model's log for the same event history. non-trivial = a case with an "
             "abortive or time-out ending; distinct by case line")
     assumptions = ["the number of onInput calls per connection depends on TCP segmentation and is collapsed to 'some'/'none'",
@@ -55,6 +55,8 @@ class C08(Spec):
         cases += ["T 1 2 n,u,v", "T 1 3 n,u,v,u,v", "T 2 2 n,u,v,f"]
         # writes for a connection that has ended: Peer::send on a kept peer (T), an answer from a thread of the handler's (H)
         cases += ["T 1 2 K", "T 2 3 K,f,K", "T 1 2 K,K,K", "H 1 2 L,f,k", "H 2 3 L,L,f,L"]
+        # a connection that is gone before the acceptor thread has finished handing it over (write-queue entry set up too late: fixed)
+        cases += ["T 1 30 h,c,h,c,h,c,h,c", "T 2 30 h,c,h,c,h,c,h,c,R,R"]
         cases.append("T 1 4 p")
         cases.append("T 2 3 p,p,f,p")
         nT, nH, nS = (25, 12, 6) if tier == "quick" else (400, 150, 60)
@@ -87,6 +89,9 @@ class C08(Spec):
         if f.get("stale", "0") != "0":
             return ("%s fresh connection(s) received something else than exactly the answer to their own request: what an earlier "
                     "connection on the same descriptor number left unsent was not released with it (%s)" % (f["stale"], case))
+        if f.get("tables", "0") != "0":
+            return ("after all clients of a round were gone the workers' tables (Transport::peers, toWrite, timers) still held %s entr%s (%s)"
+                    % (f["tables"], "y" if f["tables"] == "1" else "ies", case))
         if f["fd_delta"] != "0":
             return "after all clients were gone the process held %s descriptors more than its idle baseline (%s)" % (f["fd_delta"], case)
         return None
